@@ -243,6 +243,16 @@ func (en *Env) ident(name string) Val {
 			}
 		}
 	}
+	// variables captured by a function literal: the current content of the captured variable
+	if en.fr != nil {
+		for _, fv := range en.fr.fn.FreeVars {
+			if fv.Name() == name {
+				if pv, ok := en.fr.vals[fv]; ok {
+					return en.ex.loadObj(en.st, fv.Type().(*types.Pointer).Elem(), pv.L[0])
+				}
+			}
+		}
+	}
 	// package scope
 	if en.pkg != nil {
 		if obj := en.pkg.Scope().Lookup(name); obj != nil {
@@ -260,6 +270,26 @@ func (en *Env) ident(name string) Val {
 
 func (en *Env) findLocal(name string) *ssa.Alloc {
 	var best *ssa.Alloc
+	if name == "rangeindex" && en.pos.IsValid() {
+		// hidden index of the range loop the clause belongs to: the one declared nearest to the clause's loop
+		dist := func(a *ssa.Alloc) int {
+			d := int(a.Pos()) - int(en.pos)
+			if d < 0 {
+				d = -d
+			}
+			return d
+		}
+		for _, b := range en.fr.fn.Blocks {
+			for _, in := range b.Instrs {
+				if a, ok := in.(*ssa.Alloc); ok && a.Comment == name {
+					if best == nil || dist(a) < dist(best) {
+						best = a
+					}
+				}
+			}
+		}
+		return best
+	}
 	for _, b := range en.fr.fn.Blocks {
 		for _, in := range b.Instrs {
 			a, ok := in.(*ssa.Alloc)
